@@ -57,3 +57,35 @@ Definition sandnet_handle_compressed (p : list N) (hg hu : N) (b : buf) : cres :
       | _, _ => COob
       end
   end.
+
+(* ------------------------------------------------------------------ E1.31 sender: settings calls *)
+(* E131Node::SetSourceName / StartStream on a universe: create the tx settings (sequence 0) when the
+   universe has none, otherwise leave the sequence alone (the name only changes header bytes) *)
+Definition tx_touch (u : N) (m : txmap) : txmap :=
+  match tx_lookup u m with None => tx_update u 0 m | Some _ => m end.
+
+Inductive sop :=
+| SSend (u prio : N) (f : list N)
+| STouch (u : N).                    (* SetSourceName(u, _) or StartStream(u) *)
+
+Fixpoint send_script (rev2 : bool) (cid name : list N) (hu : N) (ip : bool)
+         (ops : list sop) (m : txmap) (st : rxs) : list (option (bool * buf)) * txmap * rxs :=
+  match ops with
+  | [] => ([], m, st)
+  | STouch u :: r =>
+    let '(o, m', st') := send_script rev2 cid name hu ip r (tx_touch u m) st in (None :: o, m', st')
+  | SSend u prio f :: r =>
+    let '(p, m') := tx_send_map rev2 cid name prio m u f in
+    let '(st', ran) := match p with Some p => deliver hu ip st p | None => (st, false) end in
+    let '(o, m'', st'') := send_script rev2 cid name hu ip r m' st' in
+    (Some (ran, rx_buf st') :: o, m'', st'')
+  end.
+
+Fixpoint expect_script (hu : N) (ops : list sop) (cur : buf) : list (option (bool * buf)) :=
+  match ops with
+  | [] => []
+  | STouch _ :: r => None :: expect_script hu r cur
+  | SSend u _ f :: r =>
+    if u =? hu then Some (true, Some f) :: expect_script hu r (Some f)
+    else Some (false, cur) :: expect_script hu r cur
+  end.
